@@ -155,7 +155,7 @@ theorem log_mono_loop (s : St) (i : LoopInp) (e : LogEntry) (h : e ∈ s.log) : 
   · dsimp only
     split
     · exact h
-    · rw [(dispatchAll_frame i.events _).2]; exact h
+    · rw [(dispatchAll_frame (if i.pollErr = true then [] else i.events) _).2]; exact h
   · exact h
   · exact h
 
@@ -266,18 +266,18 @@ theorem loop_progress (q : QItem) (s : St) (i : LoopInp) (loc : Option Nat)
       split <;> omega
     | polling =>
       have hne : s.queue.isEmpty = false := by rw [hq]; cases pre <;> rfl
-      obtain ⟨extra, hx⟩ := dispatchAll_queue i.events { s with polling := false }
-      have hst := dispatchAll_stop i.events { s with polling := false }
-      have hls : loopStep s i = { (i.events.foldl dispatchFd { s with polling := false }) with phase := .idle } := by
+      obtain ⟨extra, hx⟩ := dispatchAll_queue (if i.pollErr = true then [] else i.events) { s with polling := false }
+      have hst := dispatchAll_stop (if i.pollErr = true then [] else i.events) { s with polling := false }
+      have hls : loopStep s i = { ((if i.pollErr = true then [] else i.events).foldl dispatchFd { s with polling := false }) with phase := .idle } := by
         simp [loopStep, hp, hne]
       refine ⟨some k, ⟨pre, post ++ extra, ?_, hk⟩, ⟨?_, ?_, ?_⟩, ?_⟩
       · rw [hls]
-        show (i.events.foldl dispatchFd { s with polling := false }).queue = _
+        show ((if i.pollErr = true then [] else i.events).foldl dispatchFd { s with polling := false }).queue = _
         rw [hx]
         show s.queue ++ extra = _
         rw [hq]; simp
       · rw [hls]
-        show (i.events.foldl dispatchFd { s with polling := false }).stop = false
+        show ((if i.pollErr = true then [] else i.events).foldl dispatchFd { s with polling := false }).stop = false
         rw [hst]; exact hstop
       · rw [hls]; simp
       · rw [hls]; simp
